@@ -369,6 +369,7 @@ func dutyTypeValid(t int32) bool { return t > 0 && t < 14 }
 
 // expectation of the generator about an op (absent in exec mode).
 type expect struct {
+	mustAccept bool   // an unaltered honest message for an allowed, unexpired duty with room in the buffer
 	mustReject bool   // a signed field was altered without re-signing by the named member
 	what       string // description for the violation text
 	just       bool   // the altered message is a justification
@@ -439,6 +440,9 @@ func (e *episode) doMsg(run *hx.Run, ctxDone bool, raw []byte, ex *expect) {
 		// ---- monitors on reject -------------------------------------------------------------
 		if watchedAfter != watchedBefore || (instAfter != instBefore && class != "timeout") {
 			run.Violate("qbftwire:rejected_but_enqueued", fmt.Sprintf("rejected (%s) but buffers %d->%d instances %d->%d", class, watchedBefore, watchedAfter, instBefore, instAfter))
+		}
+		if ex != nil && ex.mustAccept && !ctxDone && lenBefore < recvCap {
+			run.Violate("qbftwire:honest_message_rejected", fmt.Sprintf("honest %s with %d justifications for an allowed duty rejected (%s): %v", ex.what, len(pm.GetJustification()), class, err))
 		}
 		run.Op(op, "rej:"+class+" "+e.tail(duty))
 		return
@@ -666,7 +670,7 @@ func newValue(rng *hx.Rng) valueT {
 		inner = &pbv1.Duty{Slot: rng.U64() % 100000, Type: int32(1 + rng.Intn(13))}
 	default:
 		set := map[string][]byte{}
-		for k := 0; k < 1+rng.Intn(2); k++ {
+		for k := 0; k < 1+rng.Intn(4); k++ {
 			set["0x"+hex.EncodeToString(randBytes(rng, 6))] = randBytes(rng, 8+rng.Intn(40))
 		}
 		inner = &pbv1.UnsignedDataSet{Set: set}
@@ -679,8 +683,32 @@ func newValue(rng *hx.Rng) valueT {
 	// anypb.New marshals maps in random order; keep the generator deterministic
 	vb, err := proto.MarshalOptions{Deterministic: true}.Marshal(inner)
 	hx.Must(err)
+	// ... but a sender's encoder may emit the entries of a map in any order (Go's does): the value's
+	// hash must not depend on it. Half of the multi-entry sets travel with their entries reversed.
+	if rng.Chance(1, 2) {
+		vb = reverseTopLevelFields(vb)
+	}
 	a := &anypb.Any{TypeUrl: "type.googleapis.com/" + string(inner.ProtoReflect().Descriptor().FullName()), Value: vb}
 	return valueT{h, a}
+}
+
+// reverseTopLevelFields reverses the order of the top-level fields of an encoded message (for a
+// message that consists of one map field: another valid encoding of the same value).
+func reverseTopLevelFields(b []byte) []byte {
+	var fields [][]byte
+	for len(b) > 0 {
+		_, _, n := protowire.ConsumeField(b)
+		if n <= 0 {
+			panic("bad encoding")
+		}
+		fields = append(fields, b[:n])
+		b = b[n:]
+	}
+	var out []byte
+	for i := len(fields) - 1; i >= 0; i-- {
+		out = append(out, fields[i]...)
+	}
+	return out
 }
 
 func (e *episode) create(typ qbft.MsgType, duty core.Duty, peer int, round int64, v *valueT, pr int64, pv *valueT, just []qmsg) cqbft.Msg {
@@ -734,6 +762,26 @@ func (e *episode) honest(rng *hx.Rng, duty core.Duty) []base {
 		{"preprepare2-null", toWire(e.create(qbft.MsgPrePrepare, duty, lead(2), 2, &v2, 0, nil, rcNull))},
 		{"preprepare2-prepared", toWire(e.create(qbft.MsgPrePrepare, duty, lead(2), 2, &v1, 0, nil, append(append([]qmsg{}, rcPrep...), prepares...)))},
 		{"decided", toWire(e.create(qbft.MsgDecided, duty, p0, 1, &v1, 0, nil, commits))},
+	}
+	// the largest honest message: a leader that re-proposes a prepared value attaches every matching
+	// ROUND-CHANGE and every PREPARE it has seen — up to n of each (qbft.getJustifiedQrc), the bound
+	// verifyMsgLimits must admit (C04 honest_within_limits: at most 2n justifications)
+	if n > q {
+		var allPrep, allRC []qmsg
+		for _, p := range perm {
+			allPrep = append(allPrep, e.create(qbft.MsgPrepare, duty, p, 1, &v1, 0, nil, nil))
+		}
+		for _, p := range perm {
+			allRC = append(allRC, e.create(qbft.MsgRoundChange, duty, p, 2, nil, 1, &v1, allPrep[:q]))
+		}
+		bs = append(bs, base{"preprepare2-prepared-max", toWire(e.create(qbft.MsgPrePrepare, duty, lead(2), 2, &v1, 0, nil, append(append([]qmsg{}, allRC...), allPrep...)))})
+		bs = append(bs, base{"decided-max", toWire(e.create(qbft.MsgDecided, duty, p0, 1, &v1, 0, nil, func() []qmsg {
+			var cs []qmsg
+			for _, p := range perm {
+				cs = append(cs, e.create(qbft.MsgCommit, duty, p, 1, &v1, 0, nil, nil))
+			}
+			return cs
+		}()))})
 	}
 	return bs
 }
@@ -1122,7 +1170,7 @@ func main() {
 		// 1. every honest message is accepted as is
 		for _, b := range bases {
 			run.Count("base:" + b.name)
-			send(proto.Clone(b.w).(*pbv1.QBFTConsensusMsg), false, nil, "honest|"+b.name)
+			send(proto.Clone(b.w).(*pbv1.QBFTConsensusMsg), false, &expect{mustAccept: true, what: b.name}, "honest|"+b.name)
 		}
 
 		// 2. reflection-enumerated single alterations
